@@ -7,7 +7,7 @@ ALL = ["C%02d" % i for i in range(1, 20)]
 # id -> (technique, level text, level note, design_ref)
 CHECKS = {
  "C03": ("bounded-exhaustive input enumeration on the real compiler + explicit-state (pc,height) reachability of every accepted function",
-         "Every input of five exhaustively enumerated families (all prefixes of all repository scripts, token-level mutants at every token position, all token sequences up to length 3/4 over the full 72-kind vocabulary, nesting ladders and limit-sized programs, valid programs with a stray closer at every position) is compiled by the real compiler in a crash-isolated child; outcome must be Ok xor located CompileError, never panic/hang; accepted functions must be structurally valid code.",
+         "Every input of five exhaustively enumerated families (all prefixes of all repository scripts, token-level mutants at every token position, character-level mutants (every single-character deletion, insertion of ten lexically significant characters at every / every third position), all token sequences up to length 3/4 over the full 72-kind vocabulary, nesting ladders and limit-sized programs, valid programs with a stray closer at every position) is compiled by the real compiler in a crash-isolated child; outcome must be Ok xor located CompileError, never panic/hang; accepted functions must be structurally valid code.",
          "Trusts: the runner's panic/crash/timeout capture; M-vm's stack-effect table (bound to the compiler by C04's conformance run). Bounded: inputs outside the families are not covered.",
          "5/C03"),
  "C05": ("bounded-exhaustive program enumeration, every case executed on the real interpreter and compared with the reference evaluator M-eval",
@@ -19,7 +19,7 @@ CHECKS = {
          "Trusts M-eval's environment model. Bounded: 2 closures x 2 variables (3x3 in one family), nesting depth 3.",
          "5/C06"),
  "C08": ("bounded-exhaustive program enumeration vs the reference evaluator M-eval; disagreements attributed to listed findings only through trigger predicates on the model's own execution",
-         "Every nest (depth 2 quick / 3 thorough) of try/catch/finally forms, loops, calls and blocks with every leaf action (throws of 4 value kinds, 6 failing built-ins, deep callee throws, return, break, continue) and every sequential pair of nests, run on the real VM and compared with M-eval's block trace and outcome.",
+         "Every nest (depth 2 quick / 3 thorough) of try/catch/finally forms, loops, calls and blocks with every leaf action (throws of 4 value kinds, 6 failing built-ins, deep callee throws, a callee that itself returns through try/finally, return, break, continue), including nests whose focus sits inside a finally block while a return is pending, and every sequential pair of nests, run on the real VM and compared with M-eval's block trace and outcome.",
          "Four open findings (known_findings.json) are attributed by trigger predicate; the trigger-free population must agree exactly. Bounded by nest depth.",
          "5/C08"),
  "C07": ("bounded-exhaustive program enumeration vs the reference evaluator M-eval (class chain walks, lexical super)",
@@ -27,15 +27,15 @@ CHECKS = {
          "Trusts M-eval's class model (Appendix A). Bounded: depth 3, two method names.",
          "5/C07"),
  "C14": ("exhaustive enumeration of import graphs (configurations) vs the reference evaluator M-eval with a module table",
-         "All 4096 import graphs over {main,a,b,c} (every edge, self-loop and main edge independently), every import guarded and followed by a use, identity/isolation/built-in probes, plus placement variants (in functions called 0/1/2 times, missing/uncompilable modules caught/uncaught/aliased, directory paths, a 3-cycle); each run on the real VM with a module loader serving the generated sources and compared with M-eval.",
-         "Trusts M-eval's module model. A module body that throws is outside the alphabet (X). Bounded: 3 modules besides main.",
+         "All 4096 import graphs over {main,a,b,c} (every edge, self-loop and main edge independently), every import guarded and followed by a use, identity/isolation/built-in probes, plus placement variants (in functions called 0/1/2 times, missing/uncompilable modules caught/uncaught/aliased, directory paths, a 3-cycle) and exceptions that cross module frames (8 ways a module body or a function of another module fails x 3 handler shapes x importer main / a module; after the handler the importer reads, defines and assigns globals and the check confirms where they landed); each run on the real VM with a module loader serving the generated sources and compared with M-eval.",
+         "Trusts M-eval's module model. Importing a module again after its body threw is outside the alphabet (X). Bounded: 3 modules besides main.",
          "5/C14"),
  "C17": ("bounded-exhaustive program enumeration vs M-eval (class, text, kind, full trace) + caught==uncaught differential on the implementation + stray-token line enumeration",
-         "Every call chain of depth <=3/4 over 8 link kinds (function, method, static, lambda, constructor, map/reduce callbacks through the library, fiber) with 12 failing statements at the bottom (in place, in a module function, as a module body), one statement per line: the uncaught report's class, message, ErrorKind and every trace entry must equal M-eval's; the caught variant must see the same class. 26 failing statements (incl. host natives of every ErrorKind) are checked caught==uncaught on the implementation itself; a stray token before every statement of a multi-line program must be reported at its own line.",
-         "Message texts of built-in errors come from the caught==uncaught differential, not from a table. Exceptions passing through finally blocks are outside C17's alphabet.",
+         "Every call chain of depth <=3/4 over 8 link kinds (function, method, static, lambda, constructor, map/reduce callbacks through the library, fiber) with 12 failing statements at the bottom (in place, in a module function, as a module body), one statement per line: the uncaught report's class, message, ErrorKind and every trace entry must equal M-eval's; the caught variant must see the same class. The same after an earlier, completely handled exception (5 shapes) placed in each active frame (chains to depth 2/3). 26 failing statements (incl. host natives of every ErrorKind) are checked caught==uncaught on the implementation itself; a stray token before every statement of a multi-line program must be reported at its own line.",
+         "Message texts of built-in errors come from the caught==uncaught differential, not from a table. Uncaught exceptions passing through finally blocks are outside C17's alphabet.",
          "5/C17"),
  "C18": ("bounded-exhaustive program enumeration vs M-eval (model sequences; index-based vec iteration)",
-         "for loops over every vec/tuple of length 0-3, every range with bounds in [-2,3], every string up to 2/3 chars over a 1-4-byte alphabet, user iterators; break/continue/return at every position; nested and shared iterators; every map/filter chain to depth 2/3 with 5 callbacks, reduce, collect; protocol violations; vec mutation at every position. All on the real VM vs M-eval (which runs the library's own Iter/MapIter/FilterIter definitions as AST).",
+         "for loops over every vec/tuple of length 0-3, every range with bounds in [-2,3], every string up to 2/3 chars over a 1-4-byte alphabet, user-defined iterables (iterator, iterator whose iter() starts over, collection with a separate cursor class); break/continue/return at every position; nested and shared iterators; every map/filter chain to depth 2/3 with 5 callbacks, reduce, collect (on user-defined iterables both through iter() and directly on the object, on a reused object, after a loop left by break); protocol violations; vec mutation at every position. All on the real VM vs M-eval (which runs the library's own Iter/MapIter/FilterIter definitions as AST).",
          "Trusts M-eval's iteration model (Appendix A).",
          "5/C18"),
  "C13": ("bounded-exhaustive input enumeration vs the byte-exact reference model M-str",
@@ -47,19 +47,19 @@ CHECKS = {
          "Where two shortest digit strings round-trip, the printed text is not compared (tie-breaking is not fixed by the property). Long-literal nearestness relies on the host parser.",
          "5/C19"),
  "C11": ("explicit-state breadth-first search over intern/probe sequences on the real intern table (canonical state = its slot array) + exhaustive producer-pair enumeration through the language",
-         "Level 1: BFS to depth 8/12 over 9/12 keys with designed hashes (low-bit collisions surviving 0/1/2 growths, an identical-full-hash pair, the empty string): every transition replayed on a fresh real table through the hook and compared with a reference map; in every state: no duplicate entry, size = occupied, power-of-two capacity, load <= 0.75, unbroken probe chains, every interned key present with the object first given. Level 2: producer pairs of each target string x filler counts: ==, map and tuple-key selection, one-byte-different strings distinct, host-created names.",
+         "Level 1: BFS to depth 8/12 over 13/16 keys with designed hashes (low-bit collisions surviving 0/1/2 growths, collisions in the last slot of the table at each size so that probe chains wrap, an identical-full-hash pair, the empty string): every transition replayed on a fresh real table through the hook and compared with a reference map; in every state: no duplicate entry, size = occupied, power-of-two capacity, load <= 0.75, unbroken probe chains, every interned key present with the object first given. Level 2: producer pairs of each target string x filler counts: ==, map and tuple-key selection, one-byte-different strings distinct, host-created names.",
          "Level 1 uses a feature-guarded wrapper mirroring new_gc_obj_string with caller-chosen hashes. The language has no computed field/method names; selection is exercised through maps, tuples, globals.",
          "5/C11"),
  "C12": ("explicit-state breadth-first search over HashMap operation sequences with reference M-map; every transition executed on the real map",
-         "BFS (<=3/4 live entries, depth 4/5) from the empty map and 12 literals over insert/remove with every key of a 25-key pool (1 vs 1.0, 0 vs -0, separately built equal tuples/strings/ranges, nested tuples, NaN, a class, 5 unhashables) and clear; from a rebuilt copy of every state every operation is executed and followed by a full order-independent dump; compared with M-eval's association-list map.",
+         "BFS (<=3/4 live entries, depth 4/5) from the empty map and 12 literals over insert/remove with every key of a 25-key pool (key objects reused across operations in one family) (1 vs 1.0, 0 vs -0, separately built equal tuples/strings/ranges, nested tuples, NaN, a class, 5 unhashables) and clear; from a rebuilt copy of every state every operation is executed and followed by a full order-independent dump; compared with M-eval's association-list map.",
          "keys/values/items are compared through order-independent probes. An overwritten entry keeps the first-inserted key object.",
          "5/C12"),
  "C09": ("explicit-state breadth-first search over the coroutine model M-fiber; every transition replayed on the real VM",
-         "For every pair of scripted fibers (fiber 0: all scripts up to 2/3 actions over a 10-action alphabet under 5 wrappers, with/without parameter; fiber 1: representative or all short scripts) BFS over main-program action sequences (call with 0/1/2 arguments, has_finished, top-level yield) up to length 5/6 with canonical hashing of the model state (status, continuation, handler stack, captured counter per fiber); each of the ~170k (quick) transitions is replayed as a program (definitions + action path) whose printed labels and outcome must equal the model's; the active-fiber/raw-pointer agreement monitor runs at every instruction fetch.",
+         "For every pair of scripted fibers (fiber 0: all scripts up to 2/3 actions over a 10-action alphabet under 7 wrappers incl. try/finally around the script and the script inside a finally block, with/without parameter; fiber 1: representative or all short scripts) BFS over main-program action sequences (call with 0/1/2 arguments, has_finished, top-level yield) up to length 5/6 with canonical hashing of the model state (status, continuation, handler stack, captured counter per fiber); each of the ~170k (quick) transitions is replayed as a program (definitions + action path) whose printed labels and outcome must equal the model's; the active-fiber/raw-pointer agreement monitor runs at every instruction fetch.",
          "Exceptions leaving a fiber's outermost frame end the run (fixed by the repository's own script). Which error class wins when a running fiber is re-entered with a wrong argument count is not fixed by the property and is left out.",
          "5/C09"),
  "C15": ("explicit-state breadth-first search over snippet histories with reference M-repl; every transition replayed on a fresh real interpreter",
-         "BFS over histories (length 5/7) of 22 snippets (definitions/uses, compile error, uncaught throws from top level, nested calls, a fiber, try/finally, a half-declared class, a built-in inside a method, clean try/finally and try/catch probes, suspended fiber resumed later, import and module mutation, reset) with canonical model state; each transition is the shortest history to its source state plus the snippet, run on one real Vm; per-snippet output and outcome must equal the model's; no panic.",
+         "BFS over histories (length 5/7) of 28 snippets (definitions/uses, compile error, uncaught throws from top level, nested calls, a fiber, a chain of two fibers, try/finally, a half-declared class, a built-in inside a method, after a closure escaped from the failing call frame / fiber; clean try/finally and try/catch probes, probes of the dead fibers and of the escaped closures, a fiber suspended inside try/finally and resumed later, import and module mutation, reset) with canonical model state; each transition is the shortest history to its source state plus the snippet, run on one real Vm; per-snippet output and outcome must equal the model's; no panic; swept objects are quarantined and any touch of freed memory is a violation.",
          "Counters bounded to keep the state space finite.",
          "5/C15"),
  "C04": ("explicit-state reachability over the abstract (pc, operand-stack height) space of every compiled function (M-vm) + trace conformance + limit-sized program enumeration",
@@ -71,7 +71,7 @@ CHECKS = {
          "`always` dominates every other schedule under the quarantine (argued in DESIGN.md and validated by the only{i} runs: 0 counterexamples). One open finding (KF-C01-01) attributed only when the first event is the dangling captured variable of an abandoned fiber.",
          "5/C01"),
  "C02": ("exhaustive sweeps of built-ins x receivers x adversarial argument tuples, operator constructs x value kinds, and a resource grid, on the real VM in its checked configuration",
-         "Every built-in method on a proper receiver and on an instance of a language-level subclass of the built-in class, with every argument tuple of its arity over a 43-value adversarial pool and neighbouring arities; 20 unary and 6 binary constructs over every value / ordered pair; slices over extreme bounds; recursion depth x frame width; nesting ladders to 10^4/10^5; self-containing data, mutation during iteration, fiber misuse. The run must end Ok or with a reported error, never panic/crash/hang, and a failing built-in call inside try/catch must reach the handler with an error-class instance.",
+         "Every built-in method on a proper receiver and on an instance of a language-level subclass of the built-in class, with every argument tuple of its arity over a 43-value adversarial pool (incl. tuples holding unhashable values) and neighbouring arities, each call made twice on the same argument objects and required to behave the same; 20 unary and 6 binary constructs over every value / ordered pair; slices over extreme bounds; recursion depth x frame width; nesting ladders to 10^4/10^5; self-containing data, mutation during iteration, fiber misuse. The run must end Ok or with a reported error, never panic/crash/hang, and a failing built-in call inside try/catch must reach the handler with an error-class instance.",
          "Two open findings (KF-C02-01 natives through derived classes, KF-C02-02 equality of distinct cyclic containers) attributed by receiver kind + panic message / by case identity. Every other corpus of this framework also runs on the checked runner, where a panic is a mismatch.",
          "5/C02"),
  "C10": ("exhaustive enumeration of build configurations x programs on really built binaries",
